@@ -10,6 +10,12 @@ if os.path.exists(SRC + '/matrix.tsv'):
         f = l.rstrip('\n').split('\t')
         if len(f) >= 3:
             matrix[f[0]][f[1]] = (f[2], f[3] if len(f) > 3 else '')
+final = {}
+if os.path.exists(SRC + '/final_sweep.tsv'):
+    for l in open(SRC + '/final_sweep.tsv'):
+        f = l.rstrip('\n').split('\t')
+        if len(f) >= 3:
+            final[f[0]] = (f[1], f[2], f[3] if len(f) > 3 else '')
 os.makedirs(DST, exist_ok=True)
 rows = []
 import re
@@ -47,6 +53,11 @@ for d in sorted(glob.glob(SRC + '/C??/[0-9]')) + sorted(glob.glob('/tmp/mut2/C??
     for P, v in latest.items():
         if P not in det or v['exit'] == '1':
             det[P] = v
+    if mid in final and final[mid][1] in ('0', '1', '2'):
+        # the sweep over all changes with the checks in their final state
+        P, rc, cls = final[mid]
+        if rc == '1' or P not in det:
+            det[P] = {'exit': rc, 'classes': cls}
     meta.update({
         'id': mid,
         'breaks_property': prop,
